@@ -12,6 +12,10 @@ ASSUMPTIONS = [
 ]
 RULE = c05.RULE
 
-PREDS = ("c06_backoff_ok", "c06_cap_ok", "c06_emitted_live_ok", "c06_no_resend_acked", "c06_fast_retx_ok", "c06_stable_plen_ok",
-         "c06_joint_ok", "c06_rp_exit_ok")
+# Session 5: c06_joint_ok, c06_cap_ok, c06_backoff_ok are THEOREMS of every model trace (Props/C06.v ..._every_trace);
+# c06_emitted_live_ok is FALSE of the model as written when a poll restarts after EMSGSIZE (c06_emitted_live_ok_restart_refuted,
+# a predicate artifact) - replaced by the proved guarded form c06_emitted_live_ok_g; c06_no_resend_acked_g / c06_fast_retx_ok_g
+# are the proved guarded forms of the two predicates that stay evaluated unguarded as well (monitored).
+PREDS = ("c06_backoff_ok", "c06_cap_ok", "c06_emitted_live_ok_g", "c06_no_resend_acked", "c06_no_resend_acked_g", "c06_fast_retx_ok",
+         "c06_fast_retx_ok_g", "c06_stable_plen_ok", "c06_stable_plen_ok_p", "c06_joint_ok", "c06_rp_exit_ok")
 COMPONENTS = [dict(c05.component("+".join(PREDS)), name="vsock_c06")]
